@@ -633,11 +633,24 @@ def d1_framing(ctx):
             rowbad.setdefault('no-body', []).append('is_no_body(request, response) is not consulted first (%s)' % (fmt_val(val) or 'always'))
             continue
         if val[nb_key]:
-            if readers or kind != 'return':
-                rowbad.setdefault('no-body', []).append('a reader runs although no body is expected')
+            if readers or kind not in ('return', 'end', 'fall', 'exit'):
+                rowbad.setdefault('no-body', []).append('a reader runs although no body is expected' if readers else 'the no-body path ends in %s' % kind)
             else:
                 rowok.setdefault('no-body', 0)
                 rowok['no-body'] += 1
+                # the keep-alive decision applies to a message without a body as well (204 / 304 with `Connection: close`, any
+                # HTTP/1.0 answer): RFC 7230 6.6 - the connection must not be used again
+                closes = any(e in ('self.close()', 'self._connection.close()') for e in o.effects)
+                exp = set()
+                for a in ([val[ka]] if ka in val else [True, False]):
+                    for b in ([val[sc_keys[0]]] if sc_keys else [True, False]):
+                        exp.add((not a) or b)
+                for k in sc_keys:
+                    sc_texts.add(k[1])
+                nclose += 1
+                if exp != {closes}:
+                    closebad.append('no body expected, %s -> %s, reference: close iff not keep_alive or should_close' % (
+                        fmt_val({k: v for k, v in val.items() if k == ka or k in sc_keys}) or 'always', 'close' if closes else 'keep open'))
             continue
         for k in strat_keys:
             if not k[2].endswith('get_read_strategy(%s)' % P[resp]):
